@@ -109,8 +109,18 @@ func nonEmptyGroupTactic(bc *boundsCtx, e ast.Expr, base ast.Expr, need needLen)
 				sound = false
 				continue
 			}
-			if se, ok := ast.Unparen(rhs).(*ast.SliceExpr); ok && core.SameRef(info, se.X, l) && se.Low == nil && se.High != nil {
-				if b, ok := ast.Unparen(se.High).(*ast.BinaryExpr); ok && b.Op == token.SUB && bc.isLenOf(b.X, l) {
+			// the shrink may be written on the element or on a snapshot of it (cur := acc[k]; acc[k] = cur[:len(cur)-1])
+			sameElem := func(x ast.Expr) bool {
+				if core.SameRef(info, x, l) {
+					return true
+				}
+				if ab, _ := bc.aliasOf(x); ab != nil && core.SameRef(info, ab, l) {
+					return true
+				}
+				return false
+			}
+			if se, ok := ast.Unparen(rhs).(*ast.SliceExpr); ok && sameElem(se.X) && se.Low == nil && se.High != nil {
+				if b, ok := ast.Unparen(se.High).(*ast.BinaryExpr); ok && b.Op == token.SUB && (bc.isLenOf(b.X, l) || bc.isLenOf(b.X, se.X)) {
 					if c, isC := core.ConstInt(info, b.Y); isC && c == 1 {
 						shrinks = append(shrinks, as)
 						continue
@@ -172,9 +182,14 @@ func nonEmptyGroupTactic(bc *boundsCtx, e ast.Expr, base ast.Expr, need needLen)
 	if nested {
 		return "", false
 	}
-	if !(loop.Body.Pos() <= e.Pos() && e.End() <= shrink.End()) {
+	// where the element is read: the expression, or the snapshot statement (a snapshot keeps its length)
+	var readAt ast.Node = e
+	if bc.readAt != nil {
+		readAt = bc.readAt
+	}
+	if !(loop.Body.Pos() <= readAt.Pos() && readAt.End() <= shrink.End()) {
 		// outside the fix-up loop: only safe when the shrink cannot have run before
-		if bc.g.CanReach(bc.g.PointOf(shrink), bc.g.PointOf(e)) {
+		if bc.g.CanReach(bc.g.PointOf(shrink), bc.g.PointOf(readAt)) {
 			return "", false
 		}
 		return "T4 group invariant: groups are created non-empty; the only shrink cannot precede this read", true
